@@ -45,7 +45,10 @@ CHECKS = {
              "of Python ASTs and every equivalence 'same behaviour, same sub-stream of the K events' under which each root rewrite of the K-erasure is valid, a passed "
              "check implies the two rewritten programs are equivalent, i.e. the stream under E1 is the stream under E2 filtered to E1. C03_only_subscribed: a passed "
              "check_only_subscribed means every emission site is for a subscribed event or a helper serving one. The quick check obtains both certificates in coqc for "
-             "~70 programs x subset pairs (E2 = all AST events in half of them) and the oracle compares the two recorded streams occurrence by occurrence.",
+             "every AST event alone vs all events on six feature programs plus generated programs x subset pairs, and the oracle compares the two recorded streams occurrence "
+             "by occurrence. C03_rw_frag_canonical / C03_rw_frag_proj are UNBOUNDED: on the Gallina model of the rewriter for a fragment of Python (model/RwFrag.v, tied to the "
+             "real rewriter by whole-tree equality in C01's K-syn) K-erasing the rewrite under ANY subscription set containing K gives one and the same tree, for every "
+             "fragment program and every K.",
         note="The universal claim over programs is established pair by pair (translation validation with a verified checker). The laws are facts about CPython's "
              "evaluation under observing handlers in an enabled context (guards never activated), validated by the stream oracle, not proved. Trusted: Coq kernel + "
              "vm_compute; astexport (one interner for both rewrites); translators for node kinds, event names, reserved identifiers.",
